@@ -53,7 +53,7 @@ def disagrees(case, obs):
     if k == "where_markers":
         got = markers_of(case, obs)
         if got is None:
-            return True
+            return False  # no impl was generated at all (the macro refuses the item): nothing to compare; acceptance is C05's subject
         return got != [sorted(common.norm(m) for m in case["expected_markers"]), sorted(case["expected_field_types"])]
     if k == "dump":
         return obs["dump_diff"] not in (None, "skip")
